@@ -13,7 +13,7 @@ From Verif.Sem Require Import Field Val RInst RLemmas.
 From Verif.Vec Require Import Vec3.
 From Verif.C01 Require Import Spec.
 From Verif.C03 Require Import SemExt.
-From Verif.C08 Require Import Spec.
+From Verif.C08 Require Import Spec Basis.
 From Run Require Import GenUtils GenTof GenBeamline TieC01 TieC03.
 Open Scope R_scope.
 
@@ -231,6 +231,62 @@ Lemma hkl_inverse Rm UBm qx qy qz sR sU sq :
 Proof using.
   intros HsR HsU Hsq Hd.
   exact (hkl_inverse_units Rm UBm qx qy qz sR sU sq dzero d_invm d_invm HsR HsU Hsq Hd eq_refl eq_refl eq_refl).
+Qed.
+
+(* ---------------------------------------------------------------- B of either handedness *)
+(* Both kernels in sequence - UB from ub_matrix_from_u_and_b, hkl from hkl_vec_from_Q_vec - for a B given in a re-labelled
+   or mirrored reciprocal basis B P, P ANY invertible matrix (Verif.C08.Basis: for a mirror P - two axes interchanged, one
+   or all three inverted - det(B P) = - det(B) < 0 for a right-handed B): the kernels accept it, the returned numbers are
+   P^-1 applied to the hkl of the basis B, they solve 2 pi R U (B P) hkl = Q, and the unit is unit(Q)/(unit(R) unit(U) unit(B)).
+   No hypothesis on the sign of any determinant. *)
+Lemma dadd_length9 d1 d2 : length d1 = 9%nat -> length d2 = 9%nat -> length (dadd d1 d2) = 9%nat.
+Proof using.
+  intros L1 L2.
+  destruct (dims9 d1 L1) as (a1 & a2 & a3 & a4 & a5 & a6 & a7 & a8 & a9 & ->).
+  destruct (dims9 d2 L2) as (b1 & b2 & b3 & b4 & b5 & b6 & b7 & b8 & b9 & ->).
+  reflexivity.
+Qed.
+Lemma hkl_rebased_units Rm Um Bm P qx qy qz sR sU sB sq dR dU dB dq :
+  sR > 0 -> sU > 0 -> sB > 0 -> mdet (mmul Rm (mmul Um Bm)) <> 0 -> mdet P <> 0 ->
+  length dR = 9%nat -> length dU = 9%nat -> length dB = 9%nat -> length dq = 9%nat ->
+  let H := mapp (minv P) (hkl_spec Rm (mmul Um Bm) (mkV qx qy qz)) in
+  exists u, hkl_vec_from_Q_vec O (tv qx qy qz sq dq)
+              (ub_matrix_from_u_and_b O (tmat Um sU dU) (tmat (mmul Bm P) sB dB)) (tmat Rm sR dR)
+            = VVar O (EVec O (vx H) (vy H) (vz H)) u DVec3
+            /\ ud O u = dsub dq (dadd dR (dadd dU dB)) /\ us O u = sq / (sR * (sU * sB))
+            /\ vsc (2 * PI) (mapp (mmul Rm (mmul Um (mmul Bm P))) H) = mkV qx qy qz.
+Proof using.
+  intros HsR HsU HsB Hd HP LR LU LB Lq H.
+  assert (Hd' : mdet (mmul Rm (mmul Um (mmul Bm P))) <> 0)
+    by (rewrite <- (mmul_assoc Um Bm P); apply rebased_nonsingular; assumption).
+  assert (HsUB : sU * sB > 0) by (apply Rmult_gt_0_compat; assumption).
+  rewrite ub_is_product.
+  destruct (hkl_raw_units Rm (mmul Um (mmul Bm P)) qx qy qz sR (sU * sB) sq dR (dadd dU dB) dq
+              HsR HsUB Hd' LR (dadd_length9 dU dB LU LB) Lq) as (u & E & Hud & Hus).
+  assert (EH : hkl_spec Rm (mmul Um (mmul Bm P)) (mkV qx qy qz) = H)
+    by (unfold H; rewrite <- (mmul_assoc Um Bm P); apply hkl_change_of_basis; assumption).
+  rewrite EH in E. exists u. split; [exact E|]. split; [exact Hud|]. split; [exact Hus|].
+  rewrite <- EH. apply hkl_inverse_spec, Hd'.
+Qed.
+(* instance: b* and c* interchanged (det(B P) = - det(B)): k and l come back interchanged *)
+Lemma hkl_axes_swapped Rm Um Bm qx qy qz sR sU sB sq dR dU dB dq :
+  sR > 0 -> sU > 0 -> sB > 0 -> mdet (mmul Rm (mmul Um Bm)) <> 0 ->
+  length dR = 9%nat -> length dU = 9%nat -> length dB = 9%nat -> length dq = 9%nat ->
+  let H := hkl_spec Rm (mmul Um Bm) (mkV qx qy qz) in
+  mdet (mmul Bm Pswap23) = - mdet Bm
+  /\ exists u, hkl_vec_from_Q_vec O (tv qx qy qz sq dq)
+              (ub_matrix_from_u_and_b O (tmat Um sU dU) (tmat (mmul Bm Pswap23) sB dB)) (tmat Rm sR dR)
+            = VVar O (EVec O (vx H) (vz H) (vy H)) u DVec3
+            /\ ud O u = dsub dq (dadd dR (dadd dU dB)) /\ us O u = sq / (sR * (sU * sB)).
+Proof using.
+  intros HsR HsU HsB Hd LR LU LB Lq H.
+  assert (M : mirror Pswap23) by (unfold mirror; tauto).
+  split; [apply mirrored_det, M|].
+  assert (HP : mdet Pswap23 <> 0) by (rewrite (mirror_det _ M); lra).
+  destruct (hkl_rebased_units Rm Um Bm Pswap23 qx qy qz sR sU sB sq dR dU dB dq HsR HsU HsB Hd HP LR LU LB Lq)
+    as (u & E & Hud & Hus & _).
+  exists u. split; [|split; assumption].
+  rewrite E, (mirror_involution _ M). f_equal. f_equal; simpl; ring.
 Qed.
 
 (* ---------------------------------------------------------------- split / join is lossless (exact) *)
